@@ -285,7 +285,13 @@ def run_shmwire(spec, col: Collector):
                         col.violation("shm-wire-bytes-differ", "bytes differ through server", None, i)
                     shm.close()
                 rpc(api.CloseCallback(key=key, rdid=g.rdid))
+                st = rpc(api.DatasetStatusRequest(key=key))
+                if not isinstance(st, api.DatasetStatusResponse) or st.status != api.DatasetStatus.ready:
+                    col.violation("shm-wire-status-differs", f"status of a written dataset answered {st!r}", None, i)
                 rpc(api.PurgeRequest(key=key))
+                st = rpc(api.DatasetStatusRequest(key=key))
+                if not isinstance(st, api.DatasetStatusResponse) or st.status != api.DatasetStatus.not_present:
+                    col.violation("shm-wire-status-differs", f"status of a purged dataset answered {st!r}", None, i)
                 fs = rpc(api.FreeSpaceRequest())
                 if not isinstance(fs, api.FreeSpaceResponse):
                     col.violation("shm-wire-freespace-type", repr(fs), None, i)
